@@ -1,6 +1,6 @@
 (* KeepAlive.v — model of the keep-alive loop (keepalive.go:34-60), of what a Ping can do to it
    (pingreq.go:23-54 seen from the caller), and of the reconnecting client's reaction to the
-   loop's result (reconnclient.go:108-149).  Model and specification only; proofs are in
+   loop's result (reconnclient.go:120-161).  Model and specification only; proofs are in
    KeepAlive_proofs.v.
 
    Environment = an explicit script: one [ping_env] per loop iteration says when the parent
@@ -179,7 +179,7 @@ Fixpoint scan_env (T : N) (pd : option ctx_err) (n : nat) (s : list ping_env) : 
 Definition spec_env (I T : N) (s : list ping_env) : ka_result * nat :=
   if I =? 0 then (KA_panic, O) else scan_env T None O s.
 
-(* ---------- the reconnecting client's reaction (reconnclient.go:108-149) ---------- *)
+(* ---------- the reconnecting client's reaction (reconnclient.go:120-161, at 124205a) ---------- *)
 Record cli_state := mk_cli { cs_err : option ka_err; cs_closed : bool }.
 Definition clients := nat -> cli_state.        (* one BaseClient per connection number *)
 
@@ -196,28 +196,28 @@ Definition set_error_once (i : nat) (e : ka_err) (st : clients) : clients :=
 (* conn.go:49-51 *)
 Definition close_cli (i : nat) (st : clients) : clients := upd i (mk_cli (cs_err (st i)) true) st.
 
-(* The keep-alive goroutine of connection [me] (reconnclient.go:110-133).  [late_cancel]: the
+(* The keep-alive goroutine of connection [me] (reconnclient.go:121-144).  [late_cancel]: the
    reconnect loop cancelled ctxKeepAlive between KeepAlive's return and the goroutine's select;
    [disconnecting]: Disconnect has been requested (c.disconnected is closed) by then. *)
 Definition ka_react (me : nat) (o : ka_out) (late_cancel disconnecting : bool) (st : clients) : clients :=
   match ko_result o with
   | KA_returned e =>
-      if is_some (ko_parent o) || late_cancel || disconnecting then st   (* :118-127 *)
-      else close_cli me (set_error_once me e st)                         (* :128-131 *)
+      if is_some (ko_parent o) || late_cancel || disconnecting then st   (* :129-137 *)
+      else close_cli me (set_error_once me e st)                         (* :138-141 *)
   | _ => st
   end.
 
-(* the keep-alive goroutine is only started for a positive interval (reconnclient.go:110) *)
+(* the keep-alive goroutine is only started for a positive interval (reconnclient.go:121) *)
 Definition rc_keepalive (I T : N) (s : list ping_outcome) : option ka_out :=
   if 0 <? I then Some (keepalive I T s) else None.
 
-(* Which context the keep-alive context of a connection is derived from (reconnclient.go:82-111).
+(* Which context the keep-alive context of a connection is derived from (reconnclient.go:81-120).
    The loop starts with the context the caller passed to Connect; the first successful CONNECT
-   replaces it by context.Background() (doneOnce, :97-101) BEFORE ctxKeepAlive is created from it
-   (:111), on the first connection as on every later one. *)
+   replaces it by context.Background() (doneOnce, :108-112) BEFORE ctxKeepAlive is created from it
+   (:120), on the first connection as on every later one. *)
 Inductive loop_ctx := CtxCaller | CtxBackground.
-Definition after_connect_success (c : loop_ctx) : loop_ctx := CtxBackground.      (* :97-101 *)
-Definition ka_parent_ctx (c : loop_ctx) : loop_ctx := after_connect_success c.    (* :111 *)
+Definition after_connect_success (c : loop_ctx) : loop_ctx := CtxBackground.      (* :108-112 *)
+Definition ka_parent_ctx (c : loop_ctx) : loop_ctx := after_connect_success c.    (* :120 *)
 
 (* The script the keep-alive of a connection runs against: the peer decides the outcomes; the
    caller may end the context it gave to Connect before any ping ([caller_cancel j] = it ends
@@ -238,18 +238,23 @@ Definition rc_conn_keepalive (I T : N) (caller_cancel : nat -> option ctx_err) (
   : option ka_out :=
   if 0 <? I then Some (ka_env I T (conn_script_from (ka_parent_ctx CtxCaller) caller_cancel O peer)) else None.
 
-(* The reconnect loop waiting on the connection (reconnclient.go:135-149).  A closed transport
+(* The reconnect loop waiting on the connection (reconnclient.go:145-161).  A closed transport
    ends the reader, which closes Done(); the error stored first is the one Err() reports. *)
 Inductive loop_action := LWait | LRedial | LStop.
 Definition loop_react (me : nat) (st : clients) : loop_action :=
   if cs_closed (st me) then match cs_err (st me) with Some _ => LRedial | None => LStop end
   else LWait.
 
-(* ---------- the PINGRESP slot of one connection (pingreq.go:31-34,45-51, serve.go:177-185) ----------
-   Every Ping installs a FRESH one-slot channel before it writes its PINGREQ; the reader offers
-   each PINGRESP to the channel installed at that moment with a non-blocking send. *)
+(* ---------- the PINGRESP slot of one connection (pingreq.go:31-51, serve.go:177-185) ----------
+   Every Ping installs a FRESH one-slot channel (pingreq.go:31-34) BEFORE it writes its PINGREQ
+   (:36-41) and only then waits on it (:42-51); the reader offers each PINGRESP to the channel
+   installed at that moment with a non-blocking send.  The peer can answer from the moment the
+   write starts, so a PINGRESP may be dispatched before the Ping has reached its select: it then
+   sits in the (already installed, buffered) channel of that very Ping. *)
 Inductive slot_ev :=
-| SReq        (* a Ping starts: new channel, PINGREQ written, the Ping waits *)
+| SInstall    (* pingreq.go:31-34: new channel registered *)
+| SWrite      (* :36-41: PINGREQ handed to the transport; from here on the peer may answer *)
+| SSelect     (* :42: the Ping starts waiting; a buffered PINGRESP is taken at once *)
 | SResp       (* the reader receives a PINGRESP *)
 | SGiveUp.    (* the waiting Ping's context is done *)
 
@@ -257,20 +262,26 @@ Inductive slot_res := SAnswered | SGaveUp.
 
 Record slot_st := mk_slot {
   sl_chan : option bool;   (* None: no channel yet (nil: a send is never ready); Some full *)
-  sl_wait : bool           (* a Ping is waiting on the channel *)
+  sl_wait : bool           (* a Ping is waiting in its select *)
 }.
 Definition slot_init : slot_st := mk_slot None false.
 
 Definition slot_step (st : slot_st) (e : slot_ev) : slot_st * list slot_res :=
   match e with
-  | SReq => (mk_slot (Some false) true, [])
+  | SInstall => (mk_slot (Some false) false, [])
+  | SWrite => (st, [])
+  | SSelect =>
+      match sl_chan st with
+      | Some true => (mk_slot (Some false) false, [SAnswered])   (* already there *)
+      | _ => (mk_slot (sl_chan st) true, [])
+      end
   | SResp =>
       match sl_chan st with
       | None => (st, [])                                   (* dropped *)
       | Some true => (st, [])                              (* buffer full: dropped *)
       | Some false =>
           if sl_wait st then (mk_slot (Some false) false, [SAnswered])   (* taken by the waiting Ping *)
-          else (mk_slot (Some true) false, [])             (* sits in a channel nobody reads any more *)
+          else (mk_slot (Some true) false, [])             (* buffered in the channel installed last *)
       end
   | SGiveUp => if sl_wait st then (mk_slot (sl_chan st) false, [SGaveUp]) else (st, [])
   end.
@@ -281,14 +292,20 @@ Fixpoint slot_run (st : slot_st) (es : list slot_ev) : list slot_res :=
   | e :: r => let '(st', out) := slot_step st e in out ++ slot_run st' r
   end.
 
-(* what the peer does around ping j: [u] unsolicited PINGRESPs while no Ping is waiting, then the
-   PINGREQ, then [r] PINGRESPs (r = 0: none, the Ping gives up when its context is done) *)
-Definition ping_events (ur : nat * nat) : list slot_ev :=
-  let '(u, r) := ur in
-  repeat SResp u ++ SReq :: (match r with O => [SGiveUp] | _ => repeat SResp r end).
+(* what the peer does around ping j: [u] unsolicited PINGRESPs while no Ping is in progress;
+   then the Ping: install, write, [z] PINGRESPs dispatched before the Ping reaches its select
+   (a zero-delay peer), select, [r] PINGRESPs later; with none at all the Ping gives up when its
+   context is done *)
+Definition ping_events (uzr : nat * nat * nat) : list slot_ev :=
+  let '(u, z, r) := uzr in
+  repeat SResp u ++ SInstall :: SWrite :: repeat SResp z ++ SSelect ::
+  (match (z + r)%nat with O => [SGiveUp] | _ => repeat SResp r end).
+
+Definition peer_answers (uzr : nat * nat * nat) : bool :=
+  let '(_, z, r) := uzr in negb (Nat.eqb (z + r) 0).
 
 Definition outcome_of_slot (r : slot_res) : ping_outcome :=
   match r with SAnswered => Answered 0 | SGaveUp => Never end.
 
-Definition wire_outcomes (urs : list (nat * nat)) : list ping_outcome :=
-  map outcome_of_slot (slot_run slot_init (flat_map ping_events urs)).
+Definition wire_outcomes (uzrs : list (nat * nat * nat)) : list ping_outcome :=
+  map outcome_of_slot (slot_run slot_init (flat_map ping_events uzrs)).
